@@ -20,7 +20,6 @@ import (
 	"context"
 	"encoding/json"
 	"fmt"
-	"reflect"
 	"sort"
 	"strings"
 	"testing"
@@ -37,7 +36,7 @@ import (
 )
 
 type chOp struct {
-	K   string `json:"k"`             // join sync hb leave commit fetch describe handoff sleep
+	K   string `json:"k"`             // join sync hb leave commit fetch describe handoff sleep sweep
 	B   int    `json:"b"`             // broker the request is sent to (0 / 1)
 	M   int    `json:"m,omitempty"`   // member slot (index into ids issued so far); -1 = new member
 	G   int    `json:"g,omitempty"`   // generation: 0 current (store), 1 the member's last seen, 2 current-1
@@ -74,14 +73,11 @@ func chNewCluster(t *testing.T, endpoints []string) *chCluster {
 		t.Cleanup(func() { _ = cli.Close() })
 		h := newHandler(c.store, storage.NewMemoryS3Client(), protocol.MetadataBroker{NodeID: int32(i + 1), Host: "localhost", Port: int32(19092 + i)}, testLogger())
 		h.groupLeaseManager = metadata.NewGroupLeaseManager(cli, metadata.GroupLeaseConfig{BrokerID: fmt.Sprintf("%d", i+1), LeaseTTLSeconds: 60, Logger: testLogger()})
-		// as in newHandler for an etcd-backed store: the coordinator's sweep is tied to the
-		// group leases (when the code has that hook); fast ticks so that sweeps happen
+		// the coordinator exactly as newHandler builds it for a broker with a group lease manager:
+		// production config function, production constructor, default sweep interval (the
+		// schedule drives the sweeps explicitly through VerifSweep)
 		h.coordinator.Stop()
-		cfg := &broker.CoordinatorConfig{CleanupInterval: 20 * time.Millisecond}
-		if f := reflect.ValueOf(cfg).Elem().FieldByName("OwnsGroup"); f.IsValid() {
-			f.Set(reflect.ValueOf(h.groupLeaseManager.Owns))
-		}
-		h.coordinator = broker.NewGroupCoordinator(c.store, h.brokerInfo, cfg)
+		h.coordinator = broker.NewGroupCoordinator(c.store, h.brokerInfo, coordinatorConfig(h.groupLeaseManager))
 		c.hs[i], c.glm[i] = h, h.groupLeaseManager
 		t.Cleanup(func() { h.groupLeaseManager.ReleaseAll(); h.coordinator.Stop() })
 	}
@@ -185,6 +181,16 @@ func chRun(t *testing.T, c *chCluster, group string, cs chCase) ([]chFail, map[s
 			if owner >= 0 {
 				c.glm[owner].Release(group)
 				tags["handoff"] = true
+			}
+			continue
+		case "sweep": // the cleanup sweep of a broker that does NOT hold the lease (its ticker fired)
+			if owner == b {
+				continue // the holder's own sweeps are not part of this stream
+			}
+			tags["non-holder-sweep"] = true
+			c.hs[b].coordinator.VerifSweep()
+			if now, offs := c.view(group), c.offsets(group); now.image != pre.image || offs != offsPre {
+				fail(i, "store-changed-behind-owner", "the cleanup sweep of broker %d, which does not hold the lease of %s, changed the persisted group from %s to %s (offsets %v -> %v): it swept a cached copy by its own clock", b+1, group, imageOr(pre), imageOr(now), offsPre, offs)
 			}
 			continue
 		case "sleep":
@@ -331,6 +337,10 @@ func chRun(t *testing.T, c *chCluster, group string, cs chCase) ([]chFail, map[s
 func chGen(r *vRand, handoffs bool) chCase {
 	var cs chCase
 	n := r.Range(8, 24)
+	short := int32(0) // in some cases sessions are 40 ms: cached copies lapse by their broker's clock
+	if r.Chance(35) {
+		short = 40
+	}
 	members := 0
 	home := r.Intn(2) // the broker most requests go to (it will hold the lease)
 	for i := 0; i < n; i++ {
@@ -352,12 +362,12 @@ func chGen(r *vRand, handoffs bool) chCase {
 		}
 		switch w := r.Intn(100); {
 		case w < 12 && members < 3:
-			cs.Ops = append(cs.Ops, chOp{K: "join", B: b, M: -1})
+			cs.Ops = append(cs.Ops, chOp{K: "join", B: b, M: -1, S: short})
 			if b == home {
 				members++
 			}
 		case w < 30:
-			cs.Ops = append(cs.Ops, chOp{K: "join", B: b, M: pick()})
+			cs.Ops = append(cs.Ops, chOp{K: "join", B: b, M: pick(), S: short})
 		case w < 48:
 			cs.Ops = append(cs.Ops, chOp{K: "sync", B: b, M: pick(), G: genSel()})
 		case w < 60:
@@ -370,12 +380,21 @@ func chGen(r *vRand, handoffs bool) chCase {
 			cs.Ops = append(cs.Ops, chOp{K: "fetch", B: b, P: int32(r.Intn(3))})
 		case w < 91:
 			cs.Ops = append(cs.Ops, chOp{K: "describe", B: b})
+		case w < 94:
+			cs.Ops = append(cs.Ops, chOp{K: "sweep", B: 1 - home})
 		default:
 			if handoffs {
+				old := home
 				cs.Ops = append(cs.Ops, chOp{K: "handoff"})
 				if r.Chance(70) {
 					home = 1 - home // the lease moves; sometimes it comes back later
 				}
+				// the new holder serves a request, time passes, the old holder's ticker fires
+				cs.Ops = append(cs.Ops, chOp{K: "hb", B: home, M: pick()})
+				if short > 0 {
+					cs.Ops = append(cs.Ops, chOp{K: "sleep", D: 60})
+				}
+				cs.Ops = append(cs.Ops, chOp{K: "sweep", B: old}, chOp{K: "sweep", B: 1 - home})
 			}
 		}
 	}
@@ -385,6 +404,24 @@ func chGen(r *vRand, handoffs bool) chCase {
 func TestVerifC13Handlers(t *testing.T) {
 	rep := vNewReport("C13_handlers", "two real broker handlers ((*handler).Handle) with real GroupLeaseManagers on one embedded etcd and one shared metadata store; histories of 8-24 group-scoped requests (join / sync / heartbeat / leave / offset commit with current, last-seen and older generations / offset fetch / describe) for up to 3 members, each sent to either broker at random (about 30% to the broker that does not hold the group's lease); non-trivial = a completed join and a request that reached the non-owner; distinct = distinct op list")
 	endpoints := testutil.StartEmbeddedEtcd(t)
+	// named obligation production-wiring-ties-sweep-to-lease: a broker built by the REAL wiring
+	// (newHandler over an etcd-backed store creates the group lease manager and the coordinator)
+	// has its coordinator's sweep tied to the group leases
+	if es, err := metadata.NewEtcdStore(context.Background(), metadata.ClusterMetadata{}, metadata.EtcdStoreConfig{Endpoints: endpoints}); err != nil {
+		t.Fatalf("etcd store: %v", err)
+	} else {
+		ph := newHandler(es, storage.NewMemoryS3Client(), protocol.MetadataBroker{NodeID: 9, Host: "localhost", Port: 19099}, testLogger())
+		switch {
+		case ph.groupLeaseManager == nil:
+			rep.Fail("production-wiring-ties-sweep-to-lease", "production-wiring-ties-sweep-to-lease", "newHandler over an etcd-backed store created no group lease manager", chCase{})
+		case !ph.coordinator.VerifSweepTiedToLease():
+			rep.Fail("production-wiring-ties-sweep-to-lease", "production-wiring-ties-sweep-to-lease", "the coordinator built by newHandler -> coordinatorConfig(groupLeaseManager) -> NewGroupCoordinator has no OwnsGroup: its cleanup sweep is not tied to the group leases, a broker that lost a lease keeps sweeping and persisting its cached copy", chCase{})
+		default:
+			rep.Hist("production-wiring-ties-sweep-to-lease:ok")
+		}
+		ph.coordinator.Stop()
+		ph.groupLeaseManager.ReleaseAll()
+	}
 	c := chNewCluster(t, endpoints)
 	nGroup := 0
 	run := func(cs chCase) ([]chFail, map[string]bool) {
@@ -452,10 +489,8 @@ func TestVerifC13Handlers(t *testing.T) {
 			{K: "commit", B: 0, M: 0, G: 1, Off: 3}, {K: "hb", B: 0, M: 0, G: 1}, {K: "sync", B: 0, M: 0, G: 1}}})
 		// the lease moved: the old holder's sweep must not expire the members in its cached copy
 		// (they heartbeat at the new holder) nor persist anything
-		sweep := []chOp{{K: "join", B: 0, M: -1, S: 1000}, {K: "sync", B: 0, M: 0}, {K: "handoff"}, {K: "hb", B: 1, M: 0}}
-		for k := 0; k < 14; k++ {
-			sweep = append(sweep, chOp{K: "sleep", D: 90}, chOp{K: "hb", B: 1, M: 0})
-		}
+		sweep := []chOp{{K: "join", B: 0, M: -1, S: 40}, {K: "sync", B: 0, M: 0}, {K: "commit", B: 0, M: 0, Off: 4}, {K: "handoff"}, {K: "hb", B: 1, M: 0},
+			{K: "sleep", D: 60}, {K: "sweep", B: 0}, {K: "hb", B: 1, M: 0}, {K: "sweep", B: 0}, {K: "commit", B: 1, M: 0, Off: 5}}
 		handle(chCase{Ops: sweep})
 		rng := vNewRand(vSeed())
 		n := vN(150, 1500)
